@@ -50,6 +50,13 @@ PROPS["C09"] = {
     "not_covered": ["app::parse::parser::ObjectParser::parse two-pass loop / parse_one_inner qualifier dispatch (does not finish in CBMC)", "app::format::write::HeaderWriter family, master::request builders", "app::attr attribute objects"],
 }
 
+PROPS["C20"] = {
+    "ffi": True,
+    "level_text": "Proof over finite domains of the binding crate's conversion impls: every enum variant maps to its namesake in both directions and every struct field arrives bit-identical in its namesake field (loop-free harnesses over all values).",
+    "level_note": "Only conversions are covered; 'a database operation through the binding has exactly the effect of the native call' needs DatabaseHandle behind raw pointers and is NOT claimed. Generated ffi.rs (oo-bindgen output) is trusted as compiled.",
+    "not_covered": ["ffi database_* functions: effect equality with native calls (raw pointers, Mutex)"],
+}
+
 NA = {
     "C02": "whole-system history over real TCP and three threads: no function contract within reach expresses it (Kani has no threads, tokio I/O crashes the Kani compiler); its ingredients are decided under C03/C06/C08/C09/C10/C13",
     "C14": "every rule is control flow inside async fns that hold the physical layer (check_unsolicited, perform_unsolicited_response_series, wait_for_unsolicited_confirm, handle_deferred_read): outside both verifiers",
